@@ -1,5 +1,9 @@
 """C07 — dynamic type identity and interface satisfaction coincide with Go's rules.
 
+Second model (interface ==, interface-keyed maps): Model/DynEq.lean (EfaceEqual, the Equal functions, typehash / nilinterhash / interhash of
+runtime alg.go + z_face.go; EqualName / IsRegularMemory / directIfaceType of ssa/abi + ssa/abitype.go), Spec/DynEq.lean (Go's == on values),
+Lemmas/Dyn*.lean; tie: `run_dyn` below (vlib/c07_dyn.py) + the dyn-* cases of the end-to-end program.
+
 Lean: Model/GoType.lean (TypeName and callees), Model/Iface.lean (Implements / findMethod / NewItab scans),
 Spec/TypeIdent.lean (identical, implements), Lemmas/GoType*.lean, Props/C07.lean.
 Tie (B): harness/c07 imports the REAL ssa/abi and names go/types values obtained by type-checking generated
@@ -17,6 +21,7 @@ import re
 from vlib.common import *
 from vlib import typegen as tg
 from vlib import native
+from vlib import c07_dyn as dy
 
 sh = run      # vlib.common.run (this module's own `run` is the check entry point)
 
@@ -279,13 +284,19 @@ def run(ctx, args):
     rng = ctx.rng
     st = lean_check(ctx, ["LlgoVerif.Props.C07"], ["LlgoVerif/Props/C07.lean"],
                     extra_files=["LlgoVerif/Model/GoType.lean", "LlgoVerif/Model/Iface.lean", "LlgoVerif/Spec/TypeIdent.lean",
-                                 "LlgoVerif/Lemmas/GoTypeStr.lean", "LlgoVerif/Lemmas/GoType.lean", "LlgoVerif/Lemmas/GoTypeInj.lean", "LlgoVerif/Lemmas/Iface.lean"],
+                                 "LlgoVerif/Lemmas/GoTypeStr.lean", "LlgoVerif/Lemmas/GoType.lean", "LlgoVerif/Lemmas/GoTypeInj.lean", "LlgoVerif/Lemmas/Iface.lean",
+                                 "LlgoVerif/Model/DynEq.lean", "LlgoVerif/Spec/DynEq.lean", "LlgoVerif/Lemmas/DynEq.lean", "LlgoVerif/Lemmas/DynHash.lean",
+                                 "LlgoVerif/Lemmas/DynLaws.lean"],
                     leanchecker=(ctx.tier == "thorough"))
     modeld = build_driver(ctx, "modeld_c07")
-    harness = build_go_harness(ctx, "c07")
+    # ssa/abitype.go directIfaceType (package ssa needs LLVM to build) is copied VERBATIM from the working tree into the harness
+    direct_src = extract_direct_iface(ctx)
+    harness = build_go_harness(ctx, "c07", overlay={os.path.join(ctx.scratch, "h-c07", "zz_direct.go"): direct_src})
     H = os.path.join(VERIF, "harness", "c07", "native")
-    nat = native.make_native(ctx, RT_FILES, {"zz_support.go": native.RT_SUPPORT, "zz_c07.go": open(os.path.join(H, "rt_extra.go.txt")).read()},
-                             {"main.go": open(os.path.join(H, "main.go.txt")).read(), "ptr.go": open(os.path.join(H, "ptr.go.txt")).read()},
+    nat = native.make_native(ctx, RT_FILES, {"zz_support.go": native.RT_SUPPORT, "zz_c07.go": open(os.path.join(H, "rt_extra.go.txt")).read(),
+                                             "zz_c07dyn.go": open(os.path.join(H, "dyn_rt.go.txt")).read()},
+                             {"main.go": open(os.path.join(H, "main.go.txt")).read(), "ptr.go": open(os.path.join(H, "ptr.go.txt")).read(),
+                              "dyn.go": open(os.path.join(H, "dyn.go.txt")).read()},
                              name="native-c07")
     ctx.log("built: model driver, ssa/abi harness, native z_face copy")
 
@@ -536,6 +547,14 @@ def run(ctx, args):
             ctx.report(key, "runtime MatchesClosure(T, V) = %s for T=%s V=%s (id, closure, $f type, named)" % (real, a, bdesc), {"T": a, "V": bdesc, "native": real})
     stats["findMethod/MatchesClosure lines"] = len(extra)
 
+    # ---------------------------------------------------------------- (2b) interface ==, Equal functions, typehash
+    dyn = run_dyn(ctx, harness, nat, modeld, stats)
+    evaluations += dyn["evaluations"]
+    spec_fail += dyn["spec_fail"]
+    corr_bad += dyn["corr_bad"]
+    specval_bad += dyn["specval_bad"]
+    nontrivial |= dyn["nontrivial"]
+
     # ---------------------------------------------------------------- (3) end to end
     e2e_info = run_e2e(ctx, stats, pairs, pair_lines, pair_cmp, impls, impl_lines, specs, metas, pair_attrs)
 
@@ -556,7 +575,8 @@ def run(ctx, args):
     if any(s != "ok" for s in st.values()) and not ctx.violations:
         ctx.report_broken("Props/C07: " + ", ".join(n for n, s in st.items() if s != "ok"), st)
 
-    ctx.coverage["samples"] = samples + [nat_lines[0] + "  ->  " + rout[0]] + (e2e_info.get("samples", []))
+    ctx.coverage["samples"] = samples + [nat_lines[0] + "  ->  " + rout[0]] + dyn["samples"] + (e2e_info.get("samples", []))
+    ctx.coverage["dynamic_equality"] = dyn["coverage"]
     ctx.coverage["e2e"] = {k: v for k, v in e2e_info.items() if k != "samples"}
     ctx.coverage["trusted_base"] += [
         "hand-written Lean model of ssa/abi TypeName + z_face scans, tied by differential runs (real ssa/abi imported by harness/c07; verbatim z_face.go under the native stand-ins)",
@@ -571,6 +591,326 @@ def run(ctx, args):
                                "rule": "one evaluation = one pair of types named by the real ssa/abi and by the model and judged by go/types, or one method-table case run through the verbatim z_face.go and the model; non-trivial = serialised term longer than 40 chars / any table case; distinct by text",
                                "input_distribution": stats, "spec_failures_on_real_code": spec_fail,
                                "correspondence_mismatches": len(corr_bad), "spec_validation_mismatches": len(specval_bad)})
+
+
+def extract_direct_iface(ctx):
+    """copy `func directIfaceType` out of ssa/abitype.go, verbatim, into a file of the harness package"""
+    path = os.path.join(REPO, "ssa", "abitype.go")
+    text = open(path).read()
+    m = re.search(r'^func directIfaceType\(t types\.Type\) bool \{\n.*?^\}\n', text, flags=re.M | re.S)
+    out = os.path.join(ctx.scratch, "c07_direct.go")
+    if not m:
+        # the function was renamed / its signature changed: the tie to the compiler's choice of KindDirectIface is gone
+        ctx.broken.append("ssa/abitype.go: func directIfaceType(t types.Type) bool not found")
+        ctx.report_broken("extraction of directIfaceType from ssa/abitype.go", {"file": path})
+        body = "func directIfaceType(t types.Type) bool { return false }\n"
+    else:
+        body = m.group(0)
+    open(out, "w").write("// verbatim copy of ssa/abitype.go directIfaceType (made by checks/c07.py)\npackage main\n\nimport \"go/types\"\n\n" + body)
+    ctx.coverage.setdefault("extracted", []).append("ssa/abitype.go: func directIfaceType (verbatim, %d bytes)" % len(body))
+    return out
+
+
+def run_dyn(ctx, harness, nat, modeld, stats):
+    """interface ==, the Equal functions and typehash / nilinterhash / interhash: real code (ssa/abi imported, directIfaceType
+    verbatim, alg.go / z_face.go / hash64.go native copy) against the Lean model (Model/DynEq.lean) and against Go's == on values"""
+    rng = ctx.rng
+    quick = ctx.tier == "quick"
+    res = {"evaluations": 0, "spec_fail": 0, "corr_bad": [], "specval_bad": [], "nontrivial": set(), "samples": [], "coverage": {}}
+    types = dy.universe(rng, 90 if quick else 600)
+    job = {"packages": [{"path": "vm/dyn", "src": dy.package_source(types)}]}
+    jp = os.path.join(ctx.scratch, "dynjob.json")
+    json.dump(job, open(jp, "w"))
+    p = sh([harness, jp])
+    if p.returncode != 0:
+        raise RuntimeError("harness failed on the dyn job: %s %s" % (p.stdout[-3000:], p.stderr[-3000:]))
+    descs, terms, gocmp = {}, {}, {}
+    for line in p.stdout.split("\n"):
+        if line.startswith("dyn "):
+            head, term = line.split(" | ", 1)
+            f = head.split(" ")
+            i = int(f[1])
+            gocmp[i] = f[2] == "1"
+            descs[i], _ = dy.parse_desc(f[3:])
+            terms[i] = term
+    if len(descs) != len(types):
+        raise RuntimeError("harness answered %d of %d dyn types" % (len(descs), len(types)))
+    # ---- (a) the compiler's choice: model vs real, real vs specification
+    mout, _, err = run_lines([modeld], ["dynty " + terms[i] for i in range(len(types))])
+    if len(mout) != len(types):
+        raise RuntimeError("model driver died on dynty: %s" % err[-1000:])
+    unknown = {}
+    for i, t in enumerate(types):
+        res["evaluations"] += 1
+        res["nontrivial"].add("dynty " + dy.src(t))
+        k = dy.under(t)[0]
+        stats["dyn:type:" + k] = stats.get("dyn:type:" + k, 0) + 1
+        stats["dyn:type:" + ("comparable" if gocmp[i] else "uncomparable")] = stats.get("dyn:type:" + ("comparable" if gocmp[i] else "uncomparable"), 0) + 1
+        if descs[i]["reg"]:
+            stats["dyn:type:regular-memory"] = stats.get("dyn:type:regular-memory", 0) + 1
+        if descs[i]["dir"]:
+            stats["dyn:type:direct-iface"] = stats.get("dyn:type:direct-iface", 0) + 1
+        mf = mout[i].split(" ", 3)
+        real = dy.desc_str(descs[i])
+        complaints = dy.judge_desc(t, descs[i], gocmp[i])
+        for c in complaints:
+            res["spec_fail"] += 1
+            unknown["desc"] = unknown.get("desc", 0) + 1
+            if unknown["desc"] <= 3:
+                ctx.report("dyn:descriptor:%s:%s" % (dy.src(t)[:80], c[:60]), "the descriptor ssa/abi emits for a type contradicts Go's rules for == / hashing: " + c,
+                           {"type": dy.src(t), "descriptor": real, "legend": "kind size regular direct Equal …", "go/types.Comparable": gocmp[i]})
+        if len(mf) != 4:
+            res["corr_bad"].append((i, "dynty: model answered " + mout[i], dy.src(t)))
+            continue
+        if mf[3] != real:
+            res["corr_bad"].append((i, "descriptor of %s: real %s model %s" % (dy.src(t), real, mf[3]), None))
+        if (mf[0] == "1") != gocmp[i]:
+            res["specval_bad"].append((i, dy.src(t), "comparable", gocmp[i], mf[0]))
+        if (mf[2] == "1") != dy.blank_direct(t):
+            res["specval_bad"].append((i, dy.src(t), "blankDirect", dy.blank_direct(t), mf[2]))
+        if mf[1] != "1" and not complaints:
+            res["specval_bad"].append((i, dy.src(t), "layoutOK false on a real layout", real, mf[1]))
+    # ---- (b) run-time functions on memory images
+    ia = next(i for i, t in enumerate(types) if dy.src(t) == "any")
+    ii = next(i for i, t in enumerate(types) if dy.src(t) == "interface{ M() }")
+    dyn_pool = [i for i, t in enumerate(types) if dy.under(t)[0] != "iface"]
+    vg = dy.ValGen(rng, types, descs, dyn_pool)
+    enc = dy.Encoder(rng, types, descs)
+    hk = [rng.getrandbits(64) for _ in range(4)]
+    script = [rng.getrandbits(32) for _ in range(64)]
+    # alg.go readUnaligned32/64 read by goarch.BigEndian, a constant of the working tree (true on amd64 in the pinned tree: the
+    # build tags of goarch/endian_big.go and endian_little.go are swapped; harmless for hashing): the native copy reports it
+    be, _, _ = run_lines([nat], ["endian"])
+    setup = ["hkey %d %d %d %d" % tuple(hk), "rnd " + " ".join(map(str, script))] + ["D %d %s" % (i, dy.desc_str(descs[i])) for i in range(len(types))]
+    cases = []      # (line, kind, meta)
+
+    def face(pos, v):
+        return enc.obj(types[pos], descs[pos], v)
+
+    def add_eq(pos, a, b, label):
+        """a, b: interface VALUES ('nil',) | ('i', ti, v) in a position of static type types[pos]"""
+        want = dy.iface_eq(types, a, b)
+        seed = rng.getrandbits(64)
+        meta = {"label": label, "static": dy.src(types[pos]), "a": a, "b": b, "want": want}
+        cases.append(("eq %s | %s" % (face(pos, a), face(pos, b)), "eq", meta))
+        cases.append(("eq %s | %s" % (face(pos, b), face(pos, a)), "eq-swapped", meta))
+        hk_ = "iface" if descs[pos]["nmeth"] > 0 else "nilinter"
+        cases.append(("hash %s %d %s" % (hk_, seed, face(pos, a)), "hash-a", meta))
+        cases.append(("hash %s %d %s" % (hk_, seed, face(pos, b)), "hash-b", meta))
+
+    def add_key(ti, a, b, label):
+        """a, b values of the (comparable) type types[ti] used as a map key: t.Equal and typehash(t, …)"""
+        t = types[ti]
+        want = dy.go_eq(types, t, a, b)
+        seed = rng.getrandbits(64)
+        meta = {"label": label, "key": dy.src(t), "ti": ti, "a": a, "b": b, "want": want}
+        cases.append(("heq %d %s | %s" % (ti, enc.obj(t, descs[ti], a), enc.obj(t, descs[ti], b)), "heq", meta))
+        cases.append(("thash %d %d %s" % (ti, seed, enc.obj(t, descs[ti], a)), "thash-a", meta))
+        cases.append(("thash %d %d %s" % (ti, seed, enc.obj(t, descs[ti], b)), "thash-b", meta))
+
+    reps = 2 if quick else 12
+    for ti in dyn_pool:
+        t = types[ti]
+        for rep in range(reps):
+            v = vg.val(t)
+            pos = ii if rng.random() < 0.2 else ia
+            add_eq(pos, ("i", ti, v), ("i", ti, v), "same-value")
+            w, ch = vg.mutate(t, v)
+            add_eq(pos, ("i", ti, v), ("i", ti, w), "one-leaf-changed" if ch else "same-value")
+            z = vg.flip_zero(t, v)
+            if z != v:
+                add_eq(pos, ("i", ti, v), ("i", ti, z), "zero-sign-flipped")
+            if rep == 0:
+                add_eq(pos, ("i", ti, v), ("nil",), "nil-vs-value")
+                tj = rng.choice(dyn_pool)
+                add_eq(pos, ("i", ti, v), ("i", tj, vg.val(types[tj])), "random-other-type" if tj != ti else "same-type-other-value")
+                # near-miss type: same size, same bytes
+                same_size = [j for j in dyn_pool if j != ti and descs[j]["size"] == descs[ti]["size"]]
+                if same_size:
+                    tj = rng.choice(same_size)
+                    add_eq(pos, ("i", ti, v), ("i", tj, vg.val(types[tj])), "other-type-same-size")
+    add_eq(ia, ("nil",), ("nil",), "nil-nil")
+    add_eq(ii, ("nil",), ("nil",), "nil-nil")
+    # corpus: the witness of Props/C07 efaceEqual_spec_counterexample, `type NB struct{ _ *int }` with the blank field holding 1 / 2
+    nb = next(i for i, t in enumerate(types) if dy.src(t) == "NB")
+    add_eq(ia, ("i", nb, ("agg", [("w", 1)])), ("i", nb, ("agg", [("w", 2)])), "corpus:blank-pointer-field")
+    # map keys of every comparable type (the Hasher of a map type is typehash closed over the key descriptor)
+    key_types = [i for i, t in enumerate(types) if gocmp[i]]
+    for ti in key_types:
+        t = types[ti]
+        for rep in range(reps):
+            v = vg.val(t)
+            add_key(ti, v, v, "same-value")
+            w, ch = vg.mutate(t, v)
+            add_key(ti, v, w, "one-leaf-changed" if ch else "same-value")
+            z = vg.flip_zero(t, v)
+            if z != v:
+                add_key(ti, v, z, "zero-sign-flipped")
+    # ---- malformed / boundary descriptors: the run time is followed off the compiler's path too (model vs native only)
+    mal = []
+    def find(srcs):
+        return next(i for i, t in enumerate(types) if dy.src(t) == srcs)
+    def mdesc(mid, d):
+        setup.append("D %d %s" % (mid, dy.desc_str(d)))
+    import copy
+    mid = 100000
+    for (srcs, edit, what) in [
+        ("struct{ a int8; b int64 }", lambda d: d.update(reg=True), "regular flag on a padded struct"),
+        ("struct{ a float64; b int }", lambda d: d.update(reg=True), "regular flag on a struct with a float"),
+        ("struct{ _ int; x int }", lambda d: d.update(reg=True), "regular flag on a struct with a blank field"),
+        ("int64", lambda d: d.update(eq="-"), "nil Equal on int64"),
+        ("int64", lambda d: d.update(eq="memequal32"), "memequal32 on int64"),
+        ("uint64", lambda d: d.update(reg=False, pkind="f64"), "uint64 hashed as float64"),
+        ("uint64", lambda d: d.update(reg=False), "integer without the regular flag"),
+        ("[2]float64", lambda d: d.update(len=1), "array descriptor with a shorter length"),
+        ("struct{ a int; b any }", lambda d: d["fields"][0][2].update(eq="-"), "struct whose field has a nil Equal"),
+        ("struct{ a int; b any }", lambda d: d["fields"].__setitem__(1, (True, d["fields"][1][1], d["fields"][1][2])), "second field marked blank"),
+        ("string", lambda d: d.update(eq="memequal128"), "memequal128 on a string header"),
+        ("complex128", lambda d: d.update(eq="f64equal"), "f64equal on complex128"),
+        ("float32", lambda d: d.update(pkind="other"), "float32 of kind other"),
+    ]:
+        try:
+            ti = find(srcs)
+        except StopIteration:
+            continue
+        d = copy.deepcopy(descs[ti])
+        edit(d)
+        mid += 1
+        mdesc(mid, d)
+        t = types[ti]
+        for rep in range(6 if quick else 40):
+            v = vg.val(t)
+            w = v if rep % 2 == 0 else vg.mutate(t, v)[0]
+            seed = rng.getrandbits(64)
+            a_img, b_img = enc.obj(t, descs[ti], v), enc.obj(t, descs[ti], w)
+            if "string" in srcs:
+                # (string data pointers are real addresses natively: only lengths are comparable -> skip byte-reading variants)
+                continue
+            mal.append(("heq %d %s | %s" % (mid, a_img, b_img), what))
+            mal.append(("thash %d %d %s" % (mid, seed, a_img), what))
+            mal.append(("thash %d %d %s" % (mid, seed, b_img), what))
+            fa = "e 0 %d %d %s" % (mid, 0, a_img)
+            fb = "e 0 %d %d %s" % (mid, 0, b_img)
+            mal.append(("eq %s | %s" % (fa, fb), what))
+            mal.append(("hash nilinter %d %s" % (seed, fa), what))
+    lines = setup + [c[0] for c in cases] + [m[0] for m in mal]
+    rout, rrc, rerr = run_lines([nat], lines)
+    mout2, mrc, merr = run_lines([modeld], ["endian " + (be[0] if be else "0")] + lines)
+    mout2 = mout2[1:]
+    res["coverage"]["goarch.BigEndian_on_this_target"] = (be[0] == "1") if be else None
+    if len(rout) != len(lines) or len(mout2) != len(lines):
+        ctx.log("dyn: native answered %d, model %d of %d lines; native stderr: %s; model stderr: %s" % (len(rout), len(mout2), len(lines), rerr[-600:], merr[-300:]))
+        ctx.broken.append("dyn: native / model driver died")
+        if not ctx.violations:
+            ctx.report_broken("dynamic-equality run (native copy of alg.go / z_face.go or the model driver died)",
+                              {"native_lines": len(rout), "model_lines": len(mout2), "of": len(lines), "native_stderr": rerr[-800:],
+                               "next_line": lines[min(len(rout), len(mout2))][:400] if min(len(rout), len(mout2)) < len(lines) else ""})
+        return res
+    norm = lambda s: "wild" if s == "crash" else s
+    n0 = len(setup)
+    for k in range(n0):
+        if rout[k] != "ok" or mout2[k] != "ok":
+            res["corr_bad"].append((k, "dyn setup line %s: native %s model %s" % (lines[k][:120], rout[k], mout2[k]), None))
+    # correspondence: every line, verdicts, panics, hash values, fastrand calls
+    for k in range(n0, len(lines)):
+        res["evaluations"] += 1
+        if norm(rout[k]) != norm(mout2[k]):
+            what = cases[k - n0][2]["label"] if k - n0 < len(cases) else "malformed descriptor: " + mal[k - n0 - len(cases)][1]
+            res["corr_bad"].append((k, "dyn %s: native %s model %s on %s" % (what, rout[k], mout2[k], lines[k][:600]), None))
+    stats["dyn:malformed-descriptor lines"] = len(mal)
+    # the specification, on the REAL outputs
+    def show(v):
+        return repr(v)[:400]
+    reported = {}
+    def rep(key, what, obj, known_class=None):
+        res["spec_fail"] += 1
+        cls = known_class or ":".join(key.split(":")[:2])
+        reported[cls] = reported.get(cls, 0) + 1
+        if reported[cls] <= 3:
+            ctx.report(known_class or key, what, obj)
+    k = n0
+    group = {}
+    for (line, kind, meta) in cases:
+        out = rout[k]
+        k += 1
+        res["nontrivial"].add(line)
+        stats["dyn:" + kind.split("-")[0] + ":" + meta["label"]] = stats.get("dyn:" + kind.split("-")[0] + ":" + meta["label"], 0) + 1
+        want = meta["want"]
+        wants = {True: "1", False: "0", "panic": "panic:uncomparable"}[want]
+        if kind in ("eq", "eq-swapped"):
+            stats["dyn:eq:" + wants] = stats.get("dyn:eq:" + wants, 0) + 1
+            if out != wants:
+                a, b = meta["a"], meta["b"]
+                tsrc = dy.src(types[a[1]]) if a[0] == "i" else "nil"
+                # (the data-word shortcut on a blank pointer field answers "unequal" where Go goes on comparing: true or a later panic)
+                blank = a[0] == "i" and b[0] == "i" and a[1] == b[1] and want is not False and out == "0" and blank_direct_inside(types, types[a[1]], a[2])
+                rep("dyn:eq:%s|%s" % (tsrc[:80], meta["label"]),
+                    "EfaceEqual (interface ==) on two values of dynamic type %s gives %s, Go's == gives %s" % (tsrc, out, wants),
+                    {"static_type": meta["static"], "a": show(a), "b": show(b), "real": out, "go": wants, "line": line[:800], "generator_label": meta["label"],
+                     "value_legend": "('i', type index, value) | ('nil',); value: ('w', int) ('c', re, im) ('s', bytes) ('agg', [fields incl. blank ones])"},
+                    known_class="dyn:eq:blank-pointer-field-direct" if blank else None)
+            group = {"eq": out}
+        elif kind == "heq":
+            stats["dyn:heq:" + wants] = stats.get("dyn:heq:" + wants, 0) + 1
+            if out != wants:
+                blank = want is not False and out == "0" and blank_direct_inside(types, types[meta["ti"]], meta["a"])
+                rep("dyn:keyeq:%s|%s" % (meta["key"][:80], meta["label"]),
+                    "the Equal function of type %s gives %s on two values, Go's == gives %s" % (meta["key"], out, wants),
+                    {"type": meta["key"], "a": show(meta["a"]), "b": show(meta["b"]), "real": out, "go": wants, "line": line[:800]},
+                    known_class="dyn:eq:blank-pointer-field-direct" if blank else None)
+            group = {"eq": out}
+        elif kind in ("hash-a", "thash-a"):
+            group["ha"] = out
+            group["a_line"] = line
+        elif kind in ("hash-b", "thash-b"):
+            ha, hb = group.get("ha"), out
+            if "key" in meta:
+                t, a, b = types[meta["ti"]], meta["a"], meta["b"]
+                ua, ub = dy.unhashable(types, t, a), dy.unhashable(types, t, b)
+                na = dy.nan_count(types, t, a)
+                tsrc = meta["key"]
+            else:
+                a, b = meta["a"], meta["b"]
+                anyt = types[ia]
+                ua, ub = dy.unhashable(types, anyt, a), dy.unhashable(types, anyt, b)
+                na = dy.nan_count(types, anyt, a)
+                tsrc = dy.src(types[a[1]]) if a[0] == "i" else "nil"
+            for (side, u, h, v) in (("a", ua, ha, a), ("b", ub, hb, b)):
+                if u != (h == "panic:unhashable") and not (h == "panic:unhashable" and False):
+                    # (a NaN in front of an unhashable part still panics: hashing visits every non-blank part)
+                    rep("dyn:hash-panic:%s|%s" % (tsrc[:80], meta["label"]),
+                        "hashing a value of type %s %s, the value is %s" % (tsrc, "panics" if h.startswith("panic") else "does not panic", "unhashable" if u else "hashable"),
+                        {"type": tsrc, "value": show(v), "real": h})
+            if group.get("eq") == "1" and not ua and not ub:
+                stats["dyn:hash:equal-pairs"] = stats.get("dyn:hash:equal-pairs", 0) + 1
+                if ha != hb or not ha.endswith(" 0"):
+                    rep("dyn:hash-of-equal:%s|%s" % (tsrc[:80], meta["label"]),
+                        "a == b but hash(a) != hash(b) (or the hash drew a random number) for type %s" % tsrc,
+                        {"type": tsrc, "a": show(a), "b": show(b), "hash_a": ha, "hash_b": hb, "line_a": group.get("a_line", "")[:600], "line_b": line[:600]})
+            if not ua and ha and not ha.startswith("panic") and ha.split(" ")[1] != str(na):
+                rep("dyn:hash-nan:%s|%s" % (tsrc[:80], meta["label"]), "number of fastrand calls while hashing (%s) differs from the number of NaN parts (%d)" % (ha, na),
+                    {"type": tsrc, "a": show(a), "real": ha})
+    res["samples"] = [{"dyn_case": cases[0][0][:300], "native": rout[n0], "model": mout2[n0]},
+                      {"dyn_case": cases[-1][0][:300], "native": rout[n0 + len(cases) - 1], "model": mout2[n0 + len(cases) - 1]}]
+    res["coverage"].update({"types": len(types), "comparable_types": len(key_types), "cases": len(cases), "malformed_descriptor_lines": len(mal),
+                       "hashkey": hk, "rule": "one evaluation = one line (EfaceEqual / t.Equal / nilinterhash / interhash / typehash call) run through the verbatim runtime code and the Lean model; verdicts, panic classes, 64-bit hash values and fastrand call counts compared"})
+    ctx.log("dyn: %d types, %d run-time cases, %d malformed-descriptor lines through native alg.go/z_face.go and the model" % (len(types), len(cases), len(mal)))
+    return res
+
+
+def blank_direct_inside(types, t, v):
+    """does the value (of type t) contain, in a compared position, an interface whose dynamic type is pointer shaped with the word in
+    a blank field (or is t itself such a type, for a top-level dynamic value)"""
+    if dy.blank_direct(t):
+        return True
+    u = dy.under(t)
+    if u[0] == "iface":
+        return v[0] == "i" and blank_direct_inside(types, types[v[1]], v[2])
+    if u[0] == "array":
+        return any(blank_direct_inside(types, u[2], x) for x in v[1])
+    if u[0] == "struct":
+        return any(name != "_" and blank_direct_inside(types, ft, x) for (name, ft), x in zip(u[1], v[1]))
+    return False
 
 
 def run_native(binary, lines, max_crashes=12):
@@ -767,6 +1107,16 @@ def run_e2e(ctx, stats, pairs, pair_lines, pair_cmp, impls, impl_lines, specs, m
                            % (cn, usrc, usrc, cn, cn, cn, cn))
         case_meta.append(("uncomparable", usrc))
         main_calls.append("case%d()" % cn)
+    # interface == / interface-keyed maps / maps keyed by structs with float, string, interface and blank parts / type switches over a
+    # value universe (ints, floats incl. NaN and both zeros, strings behind different pointers, pointers, channels, arrays and structs of
+    # those, nested interfaces, uncomparable kinds): what EfaceEqual, the Equal functions and typehash decide in the compiled program
+    ddecl, dcases = dy.e2e_cases(ctx.rng, len(case_meta))
+    bodies["r"].append(ddecl)
+    for (dkind, dref, dbody) in dcases:
+        cn = len(case_meta)
+        bodies["r"].append("func case%d() {\n%s}\n" % (cn, dbody))
+        case_meta.append((dkind, dref))
+        main_calls.append("case%d()" % cn)
     # a method called through an interface must be the method a direct call reaches: interface{ p.Ka; q.Ka } has TWO methods
     # named `a` (one per package); each package's generic CallKa calls ITS `a` through a value of that interface type
     cn = len(case_meta)
@@ -882,6 +1232,13 @@ def run_e2e(ctx, stats, pairs, pair_lines, pair_cmp, impls, impl_lines, specs, m
             continue
         if kind == "imethod":
             ctx.report("e2e:imethod-slot-by-name", "a method called through an interface value is not the method a direct call reaches", {"case": ref_i, "reference_go": a, "llgo": b})
+            continue
+        if kind.startswith("dyn-"):
+            # the first differing line names the row (value index) / the map operation
+            first = next(((x, y) for x, y in zip(a, b) if x != y), (a[:1], b[:1]))
+            ctx.report("e2e:%s:%s" % (kind, str(first[0])[:100]), "interface == / map keyed by interface or struct values / type switch behaves differently from the reference build: " + ref_i,
+                       {"case": ref_i, "reference_go_first_difference": first[0], "llgo_first_difference": first[1], "reference_lines": len(a), "llgo_lines": len(b),
+                        "values": "vlib/c07_dyn.py E2E_VALUES (index = row / column)"})
             continue
         if kind == "uncomparable":
             ctx.report("e2e:uncomparable:%s" % ref_i, "interface == / map[any] insertion on a value of an uncomparable (or comparable) type behaves differently from the reference build",
